@@ -190,7 +190,7 @@ def run_config(cfg, rec):
                     items.append(("simulated data = fit matrix x (generating clp / dataset scale): the data lie in the column space "
                                   "with exactly the generating coefficients", core.cross_eq(zreal(dat[r]), fit), "simulation:model-mismatch"))
             rec.check_all(ctx, items, wit)
-            rec.sample({"problems": len(calls), "data0": str(zreal(calls[0]["data"][0]))[:160] if calls else None})
+            rec.want_sample() and rec.sample({"problems": len(calls), "data0": str(zreal(calls[0]["data"][0]))[:160] if calls else None})
             env = c02.DefaultEnv()
             rec.validate("random-point", dict(env), {"y0": [core.evalf(zreal(x), env) for x in calls[0]["data"].flat]} if calls else {})
 
